@@ -162,7 +162,7 @@ def main(tier, seed):
               "and transitivity. sort/2 is checked on triples: strictly ascending, duplicate-free, same elements.")
     run.functions = FUNCS
     hs = harnesses(tier, seed)
-    timeout = 20 if tier == "quick" else 240
+    timeout = 20 if tier == "quick" else 60
     run.assumptions = ["reference: vlib/order_ref.py (Var < Number < Atom < Compound; numbers by value, float before equal "
                        "int; atoms by their text without quotes; compounds by arity, name, arguments)",
                        "not asserted: order of distinct variables, position of strings relative to atoms/compounds",
